@@ -136,6 +136,36 @@ func shapesProbe() ProbeReport {
 			})
 		}
 	}
+	// 1b. one constructor function registered twice, under two names and two lifetimes: each registration is validated
+	// with its own lifetime (the constructor's analysis may be shared, the verdict may not)
+	for _, order := range []string{"scoped-first", "singleton-first"} {
+		order := order
+		guard("same-constructor-two-lifetimes/"+order, func() {
+			c := godi.NewCollection()
+			_ = c.AddScoped(func() *shReq { return &shReq{1} })
+			newCache := func(r *shReq) *shSvcA { return &shSvcA{r} }
+			var e1, e2 error
+			if order == "scoped-first" {
+				e1, e2 = c.AddScoped(newCache, godi.Name("request")), c.AddSingleton(newCache, godi.Name("shared"))
+			} else {
+				e1, e2 = c.AddSingleton(newCache, godi.Name("shared")), c.AddScoped(newCache, godi.Name("request"))
+			}
+			if e1 != nil || e2 != nil {
+				bad("same-constructor-two-lifetimes/%s: registration failed: %v / %v", order, e1, e2)
+				return
+			}
+			p, err := c.Build()
+			if err == nil {
+				_ = p.Close()
+				bad("same-constructor-two-lifetimes/%s: Build accepted a singleton with a scoped dependency", order)
+				return
+			}
+			var lc *godi.LifetimeConflictError
+			if !errors.As(err, &lc) {
+				bad("same-constructor-two-lifetimes/%s: Build failed with %v, not with a lifetime conflict", order, err)
+			}
+		})
+	}
 	// 2. group field with a name tag next to a keyed slice-typed scoped service
 	for _, life := range []string{"singleton", "transient"} {
 		life := life
